@@ -862,6 +862,15 @@ def cast_scalar(x, dt):
     raise Unsupported(f"cast to {d}")
 
 
+def scalar0d(x, dt):
+    """0-d SymArray holding one scalar (what ndarray-like code expects from scalar.astype)"""
+    a = np.empty((), dtype=object)
+    a[()] = x
+    r = a.view(SymArray)
+    r.tag = _np_dtype(dt)
+    return r
+
+
 def cast_array(a, dt):
     d = _np_dtype(dt)
     plain = _plain(a)
@@ -1656,10 +1665,45 @@ def _view_bytes(self, dtype=None, type=None):
         shp = plain.shape[:-1] + (plain.shape[-1] * k,) if plain.ndim else (k,)
         r = mk(out, shape=shp, tag=np.dtype(np.uint8))
         return r
+    if d.kind in "iu":
+        # same-width reinterpretation of bit-vector words (signedness only)
+        out = []
+        for e in plain.ravel().tolist():
+            if isinstance(e, SInt):
+                w0 = (self.tag or np.dtype(np.int16)).itemsize * 8
+                e = SBV(z3.Int2BV(e.t, w0), signed=True)
+            if isinstance(e, SBV) and e.width == d.itemsize * 8:
+                out.append(SBV(e.t, signed=d.kind == "i"))
+            elif isinstance(e, (builtins.int, np.integer)) and self.tag is not None and self.tag.itemsize == d.itemsize:
+                out.append(np.array([e], dtype=self.tag).view(d)[0].item())
+            else:
+                raise Unsupported(f"view of {builtins.type(e).__name__} as {d}")
+        return mk(out, shape=plain.shape, tag=d)
     raise Unsupported(f"view as {d}")
 
 
 SymArray.view = _view_bytes
+
+
+def _s_shift(right):
+    def f(a, k):
+        a, k = _num(a), _num(k)
+        if _conc(a) and _conc(k):
+            return (np.right_shift if right else np.left_shift)(a, k)
+        if isinstance(a, SBV) and _conc(k):
+            kk = builtins.int(k)
+            if right:
+                return SBV(a.t >> kk if a.signed else z3.LShR(a.t, kk), a.signed)
+            return SBV(a.t << kk, a.signed)
+        if isinstance(a, SInt) and _conc(k):
+            kk = builtins.int(k)
+            return (a // (1 << kk)) if right else (a * (1 << kk))
+        raise Unsupported("shift with symbolic amount")
+    return f
+
+
+UFUNC_TABLE[np.right_shift] = _s_shift(True)
+UFUNC_TABLE[np.left_shift] = _s_shift(False)
 
 
 def sym_unpackbits(a, axis=None, count=None, bitorder="big"):
